@@ -25,4 +25,5 @@ for d in sorted(glob.glob("/verif/harmless/*.diff"), key=lambda p: int(re.findal
     subprocess.run(["git", "-C", "/repo", "reset", "-q", "--hard", "HEAD"], check=True)
 subprocess.run(["git", "-C", "/verif", "checkout", "-q", "--", "evidence"])
 subprocess.run(["python3", "/verif/tools/gen_consts.py"], stdout=subprocess.DEVNULL)
+subprocess.run(["python3", "/verif/tools/gen_funcs.py"], stdout=subprocess.DEVNULL)
 sys.exit(1 if bad else 0)
